@@ -408,6 +408,18 @@ func (sws *sessionWantSender) processUpdates(updates []update) []cid.Cid {
 	// Process received DONT_HAVEs
 	dontHaves := cid.NewSet()
 	prunePeers := make(map[peer.ID]struct{})
+	var sessionPeers map[peer.ID]struct{}
+	isSessionPeer := func(p peer.ID) bool {
+		if sessionPeers == nil {
+			peers := sws.spm.Peers()
+			sessionPeers = make(map[peer.ID]struct{}, len(peers))
+			for _, sp := range peers {
+				sessionPeers[sp] = struct{}{}
+			}
+		}
+		_, ok := sessionPeers[p]
+		return ok
+	}
 	for _, upd := range updates {
 		for _, c := range upd.dontHaves {
 			// Track the number of consecutive DONT_HAVEs each peer receives
@@ -425,8 +437,15 @@ func (sws *sessionWantSender) processUpdates(updates []update) []cid.Cid {
 
 			dontHaves.Add(c)
 
-			// Update the block presence for the peer
-			sws.updateWantBlockPresence(c, upd.from)
+			// Update the block presence for the peer, if it is one of the
+			// session's peers. A DONT_HAVE can also be about a peer that is
+			// not in this session (another session that wants the same CID
+			// sent the want). Such a peer must not become a candidate for a
+			// want-block: this session is not told when it disconnects, so
+			// the want-block could stay outstanding forever.
+			if isSessionPeer(upd.from) {
+				sws.updateWantBlockPresence(c, upd.from)
+			}
 
 			// If we were waiting for a response from this peer, clear
 			// sentTo so that we can send the want to another peer
